@@ -450,6 +450,61 @@ func Harness_C04_pairs() {
 	scenario(ops, 3, 0, pre, chkFinal|chkErrors)
 }
 
+// Harness_C04_sequential: without contention nothing fails: every operation of a lone, up-to-date handle succeeds, including transactions without records.
+// bounds: one handle on a stack of 0..2 tables; 3 operations in sequence, each one of {Add, Add with automatic compaction, Add of a transaction without records (its callback never sets limits), two-table Addition, CompactAll}; then a fresh handle's view against the model
+// covers: done
+func Harness_C04_sequential() {
+	cfg := stackCfg(0)
+	dir := VerifTempDir()
+	nInit := VerifIntRange(0, 2)
+	seedStack(dir, cfg, nInit)
+	VerifAs(1)
+	st := mustOpen(dir, cfg, "open")
+	if st == nil {
+		return
+	}
+	var procs []*procState
+	for i := 0; i < 3; i++ {
+		op := []int{opAdd, opAddAuto, opEmptyAdd, opTwoTables, opCompactAll}[VerifChoose(5)]
+		p := &procState{id: byte(7 + i), op: op, st: st, dir: dir, cfg: cfg, payload: byte(i)}
+		st.disableAutoCompact = true
+		runOp(p)
+		VerifAssert(p.err == nil, "uncontended-operation-failed")
+		procs = append(procs, p)
+	}
+	VerifAs(0)
+	fin := mustOpen(dir, cfg, "final-open")
+	if fin == nil {
+		return
+	}
+	got := snapshot(fin, "final")
+	want := nInit
+	if nInit > 0 {
+		want++ // the shared ref
+	}
+	last := byte(nInit - 1)
+	sawAdd := false
+	for _, p := range procs {
+		switch p.op {
+		case opAdd, opAddAuto:
+			want++
+			if !sawAdd && nInit == 0 {
+				want++
+			}
+			sawAdd = true
+			last = p.id
+			VerifAssert(got.refs["p"+string([]byte{'0' + p.id})] == p.id, "lost-update")
+		case opTwoTables:
+			want += 2
+		}
+	}
+	VerifAssert(len(got.refs) == want, "ref-count")
+	if sawAdd || nInit > 0 {
+		VerifAssert(got.refs["s"] == last, "shared-ref")
+	}
+	VerifCover("done")
+}
+
 // Harness_C04_sha256_thorough: the listed pairs on a SHA-256 stack.
 // bounds: the quick pairs, <= 2 preemptions, hash sha256
 // covers: done
@@ -494,12 +549,12 @@ func Harness_C08_triples() {
 	scenario([]int{opCompactAll, opAdd, opAdd}, 2, 0, 2+VerifTier(), monLocks)
 }
 
-// Harness_C16_pairs: when all processes are idle the directory holds exactly tables.list and the tables it names.
+// Harness_C16_pairs: when all processes are idle the directory holds exactly tables.list and the tables it names (none left over, none missing: the directory opens).
 // bounds: as Harness_C04_pairs
 // covers: done
 func Harness_C16_pairs() {
 	ops, pre := pickPair(0)
-	scenario(ops, 3, 0, pre, chkResidue)
+	scenario(ops, 3, 0, pre, chkResidue|chkOpen)
 }
 
 // ---------- C05: disjoint compactions ----------
@@ -717,13 +772,35 @@ func dirState(dir string, cfg Config) string {
 }
 
 // Harness_C09_stale: a write through a stale handle never commits, leaves the directory unchanged, refreshes the handle; the retry succeeds with a fresh update index.
-// bounds: sequential histories: handle H1 opens on a stack of 3 tables or on the still empty directory; another handle performs 1..2 operations from {Add, CompactAll, CompactAll with expiry, compaction of the two oldest tables (the top table keeps its name)}; then H1 attempts Add, NewAddition, CompactAll, Add with auto-compaction, or Clean; then H1 retries Add
+// bounds: sequential histories: handle H1 opens on a stack of 3 tables, on the still empty directory, or on a stack (a ref and its deletion) that the other handle's compaction then empties completely; another handle performs 1..2 operations from {Add, CompactAll, CompactAll with expiry, compaction of the two oldest tables (the top table keeps its name)}; then H1 attempts Add, NewAddition, CompactAll, Add with auto-compaction, or Clean; then H1 retries Add
 // covers: done
 func Harness_C09_stale() {
 	cfg := stackCfg(0)
 	dir := VerifTempDir()
-	n0 := []int{3, 0}[VerifChoose(2)] // H1 may also have been opened before the very first commit
-	seedStack(dir, cfg, n0)
+	n0 := []int{3, 0, -1}[VerifChoose(3)] // H1 may also have been opened before the very first commit
+	emptied := n0 < 0
+	if emptied {
+		// a ref created and deleted again: a full compaction leaves an empty tables.list
+		n0 = 0
+		VerifAs(2)
+		if s0 := mustOpen(dir, cfg, "seed-open"); s0 != nil {
+			for _, del := range []bool{false, true} {
+				del := del
+				VerifAssert(s0.Add(func(w *Writer) error {
+					ui := s0.NextUpdateIndex()
+					w.SetLimits(ui, ui)
+					r := &RefRecord{RefName: "gone", UpdateIndex: ui}
+					if !del {
+						r.Value = hashWith(20, 3, 3)
+					}
+					return w.AddRef(r)
+				}) == nil, "seed-gone")
+			}
+			s0.Close()
+		}
+	} else {
+		seedStack(dir, cfg, n0)
+	}
 	VerifAs(1)
 	h1 := mustOpen(dir, cfg, "open-h1")
 	VerifAs(2)
@@ -737,6 +814,9 @@ func Harness_C09_stale() {
 		c := VerifChoose(4)
 		if n0 == 0 && i == 0 {
 			c = 0 // nothing to compact yet
+		}
+		if emptied && i == 0 {
+			c = 1 // the compaction that empties the list
 		}
 		switch c {
 		case 3:
@@ -803,7 +883,9 @@ func Harness_C09_stale() {
 	if stale && (what == 0 || what == 3) {
 		ok, e := h1.UpToDate()
 		VerifAssert(e == nil && ok, "handle-not-refreshed-after-failed-add")
-		VerifAssert(h1.NextUpdateIndex() > maxCommitted, "next-update-index-not-beyond-committed")
+		if !emptied {
+			VerifAssert(h1.NextUpdateIndex() > maxCommitted, "next-update-index-not-beyond-committed")
+		}
 		VerifAssert(addTxn(h1, 8, true) == nil, "retry-after-refresh-failed")
 		VerifCover("retried")
 		VerifAs(0)
@@ -953,6 +1035,65 @@ func Harness_C10_open_races() {
 		VerifAssert(consistentSnapshot(s, nInit, 7), "open-succeeded-with-a-state-never-committed")
 	})
 	VerifRunAt(6, "open table")
+	VerifCover("done")
+}
+
+// Harness_C10_transactions: a handle's view after its own successful commit is the committed state, whatever other handles attempted while its transaction was open.
+// bounds: sequential, 3 handles on a stack of 2 tables: handle A opens an Addition; handle B's Add is refused; handle C tries to open an Addition of its own (and, if it gets one, adds a table and leaves it open); A adds its table and commits; then A's view, C's fate and a fresh handle's view are checked
+// covers: done
+func Harness_C10_transactions() {
+	cfg := stackCfg(0)
+	dir := VerifTempDir()
+	const nInit = 2
+	seedStack(dir, cfg, nInit)
+	VerifAs(1)
+	a := mustOpen(dir, cfg, "open-a")
+	VerifAs(2)
+	b := mustOpen(dir, cfg, "open-b")
+	VerifAs(3)
+	c := mustOpen(dir, cfg, "open-c")
+	if a == nil || b == nil || c == nil {
+		return
+	}
+	VerifAs(1)
+	tr, err := a.NewAddition()
+	VerifAssert(err == nil, "a-newaddition")
+	if err != nil {
+		return
+	}
+	VerifAs(2)
+	VerifAssert(addTxn(b, 8, true) == ErrLockFailure, "b-must-be-refused")
+	VerifAs(3)
+	trC, errC := c.NewAddition()
+	VerifAssert(errC == ErrLockFailure && trC == nil, "second-transaction-opened-while-the-first-is-open")
+	VerifAs(1)
+	ui := tr.nextUpdateIndex
+	err = tr.Add(func(w *Writer) error {
+		w.SetLimits(ui, ui)
+		if err := w.AddRef(&RefRecord{RefName: "p7", UpdateIndex: ui, Value: hashWith(20, 7, 1)}); err != nil {
+			return err
+		}
+		if err := w.AddRef(&RefRecord{RefName: "s", UpdateIndex: ui, Value: hashWith(20, 7, 2)}); err != nil {
+			return err
+		}
+		return w.AddLog(&LogRecord{RefName: "s", UpdateIndex: ui, Time: 7, New: hashWith(20, 7, 2), Old: hashWith(20, 0, 0), Message: "m\n"})
+	})
+	VerifAssert(err == nil, "a-add")
+	err = tr.Commit()
+	VerifAssert(err == nil, "a-commit")
+	tr.Close()
+	if trC != nil {
+		trC.Close()
+	}
+	if err == nil {
+		VerifAssert(consistentSnapshot(snapshot(a, "a-after-commit"), nInit, 7), "view-after-own-commit-is-not-the-committed-state")
+	}
+	VerifAs(0)
+	fin := mustOpen(dir, cfg, "final-open")
+	if fin != nil && err == nil {
+		s := snapshot(fin, "final")
+		VerifAssert(consistentSnapshot(s, nInit, 7) && s.refs["p7"] == 7, "committed-state-lost")
+	}
 	VerifCover("done")
 }
 
@@ -1115,10 +1256,89 @@ func Harness_C12_batch() {
 	}
 }
 
+// Harness_C12_handles: a transaction submitted through a handle that is behind is checked against the live set as it is now, not as the handle remembers it.
+// bounds: sequential: handle 1 adds a name; handle 2 opens; handle 1 deletes that name or adds another one; handle 2 (now behind) adds a third name, retrying once after a lock failure; names from the menu {a, a/b, a/b/c, a/c, ab, b}; a third handle then reads
+// covers: accepted, rejected
+func Harness_C12_handles() {
+	cfg := stackCfg(0)
+	dir := VerifTempDir()
+	VerifAs(1)
+	h1 := mustOpen(dir, cfg, "open-h1")
+	if h1 == nil {
+		return
+	}
+	add1 := func(st *Stack, n string, del bool) error {
+		return st.Add(func(w *Writer) error {
+			ui := st.NextUpdateIndex()
+			w.SetLimits(ui, ui)
+			r := &RefRecord{RefName: n, UpdateIndex: ui}
+			if !del {
+				r.Value = hashWith(20, 1, 1)
+			}
+			return w.AddRef(r)
+		})
+	}
+	n1 := nameMenu[VerifChoose(6)]
+	VerifAssert(add1(h1, n1, false) == nil, "first-add")
+	VerifAs(2)
+	h2 := mustOpen(dir, cfg, "open-h2")
+	if h2 == nil {
+		return
+	}
+	VerifAs(1)
+	live := []string{n1}
+	if VerifChoose(2) == 0 {
+		VerifAssert(add1(h1, n1, true) == nil, "h1-delete")
+		live = nil
+	} else {
+		n2 := nameMenu[VerifChoose(6)]
+		if n2 != n1 && !specNameConflicts([]string{n1, n2}) {
+			VerifAssert(add1(h1, n2, false) == nil, "h1-second-add")
+			live = append(live, n2)
+		}
+	}
+	VerifAs(2)
+	n3 := nameMenu[VerifChoose(6)]
+	err := add1(h2, n3, false)
+	if err == ErrLockFailure {
+		err = add1(h2, n3, false)
+	}
+	post := append([]string{}, live...)
+	dup := false
+	for _, n := range live {
+		if n == n3 {
+			dup = true
+		}
+	}
+	if !dup {
+		post = append(post, n3)
+	}
+	if specNameConflicts(post) {
+		VerifAssert(err != nil, "conflicting-transaction-accepted")
+		VerifCover("rejected")
+	} else {
+		VerifAssert(err == nil, "legal-transaction-refused")
+		VerifCover("accepted")
+		live = post
+	}
+	VerifAs(3)
+	fin := mustOpen(dir, cfg, "final-open")
+	if fin == nil {
+		return
+	}
+	got := snapshot(fin, "final").refs
+	var names []string
+	for n := range got {
+		names = append(names, n)
+	}
+	VerifAssert(!specNameConflicts(names), "live-refs-conflict")
+	VerifAssert(len(got) == len(live), "live-set-size")
+}
+
 // ---------- C16: sequential failure paths ----------
 
 // Harness_C16_failures: failed and rejected operations, and Close/Clean on any stack, leave nothing behind and never remove a listed table.
-// bounds: sequential: stack of 0..2 tables; one of: Add whose write function fails, Add with limits below the stack (rejected), stale Add (lock failure), empty Add, Clean, Close, CompactAll, a two-table Addition whose second table is rejected and which is then closed (name checking on and off), a compaction whose result is empty, a compaction and an Add by a handle whose Config the table writer refuses; then the directory must hold exactly tables.list and the listed tables; also Clean/Close after another process was abandoned in the middle of an Add (leftover temporary and lock files)
+// bounds: sequential: stack of 0..2 tables; one of: Add whose write function fails, Add with limits below the stack (rejected), stale Add (lock failure), empty Add, Clean, Close, CompactAll, a two-table Addition whose second table is rejected and which is then closed (name checking on and off), a compaction whose result is empty, a compaction and an Add by a handle whose Config the table writer refuses, CompactAll with reflog expiry; then the directory must hold exactly tables.list and the listed tables; also Clean/Close after another process was abandoned in the middle of an Add (leftover temporary and lock files)
 // covers: done
 func Harness_C16_failures() {
 	cfg := stackCfg(0)
@@ -1131,7 +1351,10 @@ func Harness_C16_failures() {
 		return
 	}
 	leftover := false
-	switch VerifChoose(11) {
+	switch VerifChoose(12) {
+	case 11:
+		// a compaction with reflog expiry, also on an empty and on a one-table stack
+		VerifAssert(st.CompactAll(&LogExpirationConfig{MinUpdateIndex: 1}) == nil, "compactall-with-expiry-failed")
 	case 10:
 		// a handle whose Config the table writer refuses (block size beyond 24 bits): its compaction and its Add fail, and leave nothing behind
 		bad := cfg
@@ -1357,7 +1580,7 @@ func Harness_C09_prepared() {
 }
 
 // Harness_C06_second: after a process was abandoned mid-operation another process compacts or adds: nothing committed is lost and the directory stays openable.
-// bounds: process 1 (Add with auto-compaction, CompactAll, compactRange(0,1) or compactRange(1,2)) on a stack of 3 tables is abandoned before any of its filesystem steps; then process 2 runs CompactAll, Add, or Clean; then a fresh handle reads
+// bounds: process 1 (Add with auto-compaction, CompactAll, compactRange(0,1) or compactRange(1,2)) on a stack of 3 tables is abandoned before any of its filesystem steps; then process 2 (its handle opened after the crash, or before process 1 started) runs CompactAll, Add, or Clean; then a fresh handle reads
 // covers: done
 func Harness_C06_second() {
 	cfg := stackCfg(0)
@@ -1371,6 +1594,17 @@ func Harness_C06_second() {
 		return
 	}
 	op := VerifChoose(4)
+	// the second process's handle may have been opened before the first one started (it is then behind)
+	early := VerifChoose(2) == 1
+	var p2 *Stack
+	if early {
+		VerifAs(2)
+		p2 = mustOpen(dir, cfg, "open-second-early")
+		VerifAs(0)
+		if p2 == nil {
+			return
+		}
+	}
 	VerifSpawnCrashable(func() {
 		switch op {
 		case 0:
@@ -1386,9 +1620,11 @@ func Harness_C06_second() {
 	})
 	VerifRun(0)
 	VerifAs(2)
-	p2 := mustOpen(dir, cfg, "reopen-after-crash")
-	if p2 == nil {
-		return
+	if !early {
+		p2 = mustOpen(dir, cfg, "reopen-after-crash")
+		if p2 == nil {
+			return
+		}
 	}
 	var e2 error
 	added := false
@@ -1415,6 +1651,59 @@ func Harness_C06_second() {
 	}
 	if added {
 		VerifAssert(got.refs["p8"] == 8 && got.refs["s"] == 8, "second-process-add-lost")
+	}
+	VerifCover("done")
+}
+
+// Harness_C06_contended: a process that is refused the list lock, retries and is abandoned anywhere in the retry does not harm the transaction of the process that holds the lock.
+// bounds: stack of 2 tables; process 1 opens an Addition (holds tables.list.lock); process 2's Add is refused, its retry is abandoned before any of its filesystem steps (or completes, refused again); then process 1 adds its table and commits; a fresh handle reads
+// covers: done
+func Harness_C06_contended() {
+	cfg := stackCfg(0)
+	dir := VerifTempDir()
+	const n = 2
+	seedStack(dir, cfg, n)
+	VerifAs(1)
+	a := mustOpen(dir, cfg, "open-a")
+	VerifAs(2)
+	b := mustOpen(dir, cfg, "open-b")
+	if a == nil || b == nil {
+		return
+	}
+	VerifAs(1)
+	tr, err := a.NewAddition()
+	VerifAssert(err == nil, "a-newaddition")
+	if err != nil {
+		return
+	}
+	VerifAs(2)
+	VerifAssert(addTxn(b, 8, true) == ErrLockFailure, "b-must-be-refused")
+	VerifAs(0)
+	VerifSpawnCrashable(func() { addTxn(b, 8, true) })
+	VerifRun(0)
+	VerifAs(1)
+	ui := tr.nextUpdateIndex
+	err = tr.Add(func(w *Writer) error {
+		w.SetLimits(ui, ui)
+		return w.AddRef(&RefRecord{RefName: "p7", UpdateIndex: ui, Value: hashWith(20, 7, 1)})
+	})
+	if err == nil {
+		err = tr.Commit()
+	}
+	tr.Close()
+	VerifAs(0)
+	fin, ferr := NewStack(dir, cfg)
+	VerifAssert(ferr == nil, "reopen-after-contention")
+	if ferr != nil {
+		return
+	}
+	got := snapshot(fin, "after-contention")
+	for i := 0; i < n; i++ {
+		v, ok := got.refs["p"+string([]byte{'0' + byte(i)})]
+		VerifAssert(ok && v == byte(i), "committed-ref-lost")
+	}
+	if err == nil {
+		VerifAssert(got.refs["p7"] == 7, "acknowledged-transaction-lost")
 	}
 	VerifCover("done")
 }
